@@ -36,28 +36,35 @@ import (
 // c15Stretch: output positions [off, off+n)
 type c15Stretch struct{ off, n int }
 
-// c15SegDen: the residues Segment.Locate reads, in order
-func c15SegDen(s gts.Segment) []pos {
+// c15SegDen: the residues Segment.Locate reads, in order; a position before the origin is read off the
+// circle (mod L: leaves "shifted" and "wrap" of c15LeafKind)
+func c15SegDen(s gts.Segment, L int) []pos {
 	h, t := s[0], s[1]
+	md := func(x int) int {
+		if L > 0 && x < 0 {
+			return x + L
+		}
+		return x
+	}
 	var out []pos
 	if t < h {
 		for x := h - 1; x >= t; x-- {
-			out = append(out, pos{x, true})
+			out = append(out, pos{md(x), true})
 		}
 		return out
 	}
 	for x := h; x < t; x++ {
-		out = append(out, pos{x, false})
+		out = append(out, pos{md(x), false})
 	}
 	return out
 }
 
 // c15RegionView: the residues Region.Locate reads and the stretch of every leaf
-func c15RegionView(x gts.Region) ([]pos, []c15Stretch) {
+func c15RegionView(x gts.Region, L int) ([]pos, []c15Stretch) {
 	var d []pos
 	var st []c15Stretch
 	for _, s := range c15Leaves(x) {
-		sd := c15SegDen(s)
+		sd := c15SegDen(s, L)
 		st = append(st, c15Stretch{len(d), len(sd)})
 		d = append(d, sd...)
 	}
@@ -236,6 +243,35 @@ func c15LocateGuards(f gts.Feature, x gts.Region, L int, lines *[]string) (locs 
 		if t < h {
 			a, b = t, h
 		}
+		switch c15LeafKind(v, L) {
+		case "shifted":
+			a, b = a+L, b+L
+		case "wrap":
+			// gts.Slice(seq, a+L, b): Rotate(seq, -(a+L)) — Expand(0, m), Normalize(L) —, then the forward
+			// slice [0, b-a) of the rotated record (Gts.Cli.cwinAbs), whose Overlap filter sees the ROTATED location
+			m := ((-(a+L))%L + L) % L
+			*lines = append(*lines, fmt.Sprintf("k2.expand %s 0 %d", encLoc(f.Loc), m))
+			mid := f.Loc.Expand(0, m)
+			*lines = append(*lines, fmt.Sprintf("k2.normalize %s %d", encLoc(mid), L))
+			rot := mid.Normalize(L)
+			w := b - a
+			if !gts.Overlap(0, w)(gts.NewFeature(f.Key, rot, f.Props)) {
+				return nil
+			}
+			*lines = append(*lines, fmt.Sprintf("k2.expand %s %d %d", encLoc(rot), w, w-L))
+			mid2 := rot.Expand(w, w-L)
+			*lines = append(*lines, fmt.Sprintf("k2.expand %s 0 0", encLoc(mid2)))
+			loc := mid2.Expand(0, 0)
+			if f.Key == "source" {
+				loc = gts.VerifAsComplete(loc)
+			}
+			if t < h {
+				c := loc.Complement()
+				*lines = append(*lines, fmt.Sprintf("k2.reverse %s %d", encLoc(c), w))
+				loc = c.Reverse(w)
+			}
+			return []gts.Location{loc}
+		}
 		if !gts.Overlap(a, b)(f) {
 			return nil
 		}
@@ -299,11 +335,23 @@ func c15WindowGuards(f gts.Feature, a, b, L int, whole bool) (lines []string) {
 func c15ExtractFeatures(r *Run, c c15Case, line string, regs []gts.Region, outs []gts.Sequence) {
 	L := len(c.seq.Bytes())
 	for i, x := range regs {
-		D, st := c15RegionView(x)
+		D, st := c15RegionView(x, L)
 		if len(D) != len(outs[i].Bytes()) {
 			return
 		}
+		rot := false
+		for _, s := range c15Leaves(x) {
+			if c15LeafKind(s, L) == "wrap" {
+				rot = true
+			}
+		}
 		switch {
+		case rot && len(st) > 1:
+			r.count("feature-oracle/extract/composite-region-with-a-part-across-the-origin")
+		case rot && x.Tail() < x.Head():
+			r.count("feature-oracle/extract/backward-segment-across-the-origin")
+		case rot:
+			r.count("feature-oracle/extract/forward-segment-across-the-origin")
 		case len(st) > 1:
 			r.count("feature-oracle/extract/composite-region")
 		case len(st) == 1 && x.Tail() < x.Head():
@@ -312,7 +360,7 @@ func c15ExtractFeatures(r *Run, c c15Case, line string, regs []gts.Region, outs 
 			r.count("feature-oracle/extract/forward-segment")
 		}
 		x := x
-		c15FeatView(r, line, "extract", c.seq, outs[i], D, st, false, func(f gts.Feature) []string {
+		c15FeatView(r, line, "extract", c.seq, outs[i], D, st, rot, func(f gts.Feature) []string {
 			var ls []string
 			c15LocateGuards(f, x, L, &ls)
 			return ls
